@@ -872,7 +872,7 @@ impl TypedScenario for C01E2E {
     }
     fn budget(&self, tier: Tier) -> usize {
         match tier {
-            Tier::Quick => 3000,
+            Tier::Quick => 6000,
             Tier::Thorough => 750_000,
         }
     }
@@ -1021,7 +1021,7 @@ impl TypedScenario for C01Raw {
     }
     fn budget(&self, tier: Tier) -> usize {
         match tier {
-            Tier::Quick => 2000,
+            Tier::Quick => 5000,
             Tier::Thorough => 750_000,
         }
     }
